@@ -381,6 +381,13 @@ _add('C07', 'DeeprobModel.Props.LeafTheory', 'Deeprob.LeafTheory', ['isoPpf_cdf'
 _add('C01', 'DeeprobModel.Props.LeafTheory', 'Deeprob.LeafTheory', ['isoPdf_nonneg', 'iso_integral_one', 'uniform_integral_one', 'uniform_width_zero', 'bernoulli_sum_one',
      'categorical_sum_one', 'categorical_leaf_ok', 'equal_widths_readings_agree', 'edge_modes_as_coded'], [])
 _add('C06', 'DeeprobModel.Props.LeafTheory', 'Deeprob.LeafTheory', ['categorical_mode_is_argmax_category', 'bernoulli_mode_maximal', 'edge_modes_as_coded'], [])
+# round 5: the Gaussian leaf (density as SciPy evaluates it, normalisation, mode, raw moments of every order as integrals)
+_GT = 'Deeprob.GaussTheory'
+_add('C01', 'DeeprobModel.Props.GaussTheory', _GT, ['gauss_exp_logpdf', 'gauss_integral_one', 'gaussPdf_pos'], [])
+_add('C02', 'DeeprobModel.Props.GaussTheory', _GT, ['gauss_integral_one'], [])
+_add('C06', 'DeeprobModel.Props.GaussTheory', _GT, ['gauss_mode', 'gauss_mode_strict'], [])
+_add('C19', 'DeeprobModel.Props.GaussTheory', _GT, ['gauss_moment_is_integral', 'gauss_moment_integrable', 'gauss_moment_closed',
+     'sigma_for_variance_is_wrong'], [])
 _CO = ['wellFormedPred_iff_build', 'bfsOrder_perm', 'bfsOrder_eq_model', 'bfsOrder_parent_before_child', 'bfsOrder_levels', 'arrayPass_order_indep', 'codeValue_marg',
        'arrayPass_max_slots', 'bad_order_drops_message']
 for _p in ('C02', 'C06', 'C12'):
